@@ -562,8 +562,11 @@ impl<T: RealNumber> DecisionTreeClassifier<T> {
                     || gain > self.nodes[visitor.node].split_score.unwrap()
                 {
                     self.nodes[visitor.node].split_feature = j;
+                    // rows with a value <= threshold go left: the midpoint must stay below the
+                    // upper value even when the two values are adjacent floating-point numbers
+                    let mid = (visitor.x.get(*i, j) + prevx) / T::two();
                     self.nodes[visitor.node].split_value =
-                        Option::Some((visitor.x.get(*i, j) + prevx) / T::two());
+                        Option::Some(if mid < visitor.x.get(*i, j) { mid } else { prevx });
                     self.nodes[visitor.node].split_score = Option::Some(gain);
                     visitor.true_child_output = true_label;
                     visitor.false_child_output = false_label;
